@@ -54,12 +54,12 @@ mod verif_driver_redeemers {
         v
     }
 
-    fn withdrawal(tag: u8, redeemer: tir::Expression) -> tir::AdHocDirective {
+    fn withdrawal(tag: u8, amount: i128, redeemer: tir::Expression) -> tir::AdHocDirective {
         tir::AdHocDirective {
             name: "withdrawal".to_string(),
             data: HashMap::from([
                 ("credential".to_string(), tir::Expression::Address(reward_address(tag))),
-                ("amount".to_string(), num(1_000_000)),
+                ("amount".to_string(), num(amount)),
                 ("redeemer".to_string(), redeemer),
             ]),
         }
@@ -109,6 +109,7 @@ mod verif_driver_redeemers {
         withdrawals: Vec<(u8, Option<i128>)>,          // reward account tag, redeemer
         burn_amount: Option<i128>,                     // amount burned per burn block (default 2; mints are 3)
         native_witness: bool,                          // the template also carries a native-script witness
+        withdrawal_amounts: Vec<i128>,                 // amount of the i-th withdrawal (default 1000000)
     }
 
     fn red(r: &Option<i128>) -> tir::Expression { match r { Some(n) => num(*n), None => tir::Expression::None } }
@@ -120,7 +121,7 @@ mod verif_driver_redeemers {
         }
         for (p, r) in &c.mints { tx.mints.push(tir::Mint { amount: tir::Expression::Assets(vec![token(*p, 3)]), redeemer: red(r) }); }
         for (p, r) in &c.burns { tx.burns.push(tir::Mint { amount: tir::Expression::Assets(vec![token(*p, c.burn_amount.unwrap_or(2))]), redeemer: red(r) }); }
-        for (t, r) in &c.withdrawals { tx.adhoc.push(withdrawal(*t, red(r))); }
+        for (i, (t, r)) in c.withdrawals.iter().enumerate() { tx.adhoc.push(withdrawal(*t, c.withdrawal_amounts.get(i).copied().unwrap_or(1_000_000), red(r))); }
         if c.native_witness {
             tx.adhoc.push(tir::AdHocDirective { name: "native_witness".to_string(), data: HashMap::from([("script".to_string(), tir::Expression::Bytes([vec![0x82u8, 0x00, 0x58, 0x1c], vec![9u8; 28]].concat()))]) });
         }
@@ -156,7 +157,7 @@ mod verif_driver_redeemers {
     }
 
     fn describe(c: &Case) -> String {
-        format!("inputs={:?} mints={:?} burns={:?} withdrawals={:?}", c.inputs, c.mints, c.burns, c.withdrawals)
+        format!("inputs={:?} mints={:?} burns={:?} withdrawals={:?}{}", c.inputs, c.mints, c.burns, c.withdrawals, if c.withdrawal_amounts.is_empty() { String::new() } else { format!(" withdrawal amounts={:?}", c.withdrawal_amounts) })
     }
 
     fn check(c: &Case, class_hint: &str, n: &mut u64) {
@@ -213,6 +214,13 @@ mod verif_driver_redeemers {
             check(&Case { inputs: vec![(vec![(perm[0], 0), (perm[1], 0)], Some(100))], mints: vec![], burns: vec![], withdrawals: vec![], ..Default::default() }, "multi-utxo-input-only-first", &mut n);
             check(&Case { inputs: vec![(vec![(perm[0], 0), (perm[1], 1)], Some(100)), (vec![(perm[2], 0)], Some(101))], mints: vec![], burns: vec![], withdrawals: vec![], ..Default::default() }, "multi-utxo-input-only-first", &mut n);
         }
+        // sibling outputs of ONE transaction spent by one script block (and next to another block): one redeemer each
+        for t in [0x11u8, 0xee] {
+            check(&Case { inputs: vec![(vec![(t, 0), (t, 1)], Some(100))], ..Default::default() }, "multi-utxo-input-sibling-outputs", &mut n);
+            check(&Case { inputs: vec![(vec![(t, 2), (t, 0), (t, 1)], Some(100))], ..Default::default() }, "multi-utxo-input-sibling-outputs", &mut n);
+            check(&Case { inputs: vec![(vec![(t, 1), (t, 0), (0x55, 0)], Some(100)), (vec![(0x55, 1)], Some(101))], ..Default::default() }, "multi-utxo-input-sibling-outputs", &mut n);
+            check(&Case { inputs: vec![(vec![(t, 0)], Some(100)), (vec![(t, 1)], None), (vec![(t, 2)], Some(102))], ..Default::default() }, "multi-utxo-input-sibling-outputs", &mut n);
+        }
         // ---- mint / burn redeemers over two policies, both orders ----
         let one = vec![(vec![(0x11u8, 0u32)], None)];
         for (p, q) in [(0xaau8, 0xbbu8), (0xbb, 0xaa)] {
@@ -241,6 +249,11 @@ mod verif_driver_redeemers {
             check(&Case { inputs: one.clone(), mints: vec![], burns: vec![], withdrawals: vec![(a, Some(300))], ..Default::default() }, "reward-index", &mut n);
             check(&Case { inputs: one.clone(), mints: vec![], burns: vec![], withdrawals: vec![(a, Some(300)), (b, Some(301))], ..Default::default() }, "reward-index", &mut n);
             check(&Case { inputs: one.clone(), mints: vec![], burns: vec![], withdrawals: vec![(a, None), (b, Some(301))], ..Default::default() }, "reward-index", &mut n);
+        }
+        // the amount withdrawn does not matter (a script-guarded withdrawal of zero is the usual "withdraw-zero" pattern)
+        for amounts in [vec![0i128], vec![1], vec![u64::MAX as i128], vec![0, 5], vec![5, 0], vec![0, 0]] {
+            let w: Vec<(u8, Option<i128>)> = amounts.iter().enumerate().map(|(i, _)| (if i == 0 { 0x02 } else { 0x01 }, Some(300 + i as i128))).collect();
+            check(&Case { inputs: one.clone(), withdrawals: w, withdrawal_amounts: amounts.clone(), ..Default::default() }, "reward-redeemer-of-any-amount", &mut n);
         }
         // ---- all purposes together ----
         check(&Case { inputs: vec![(vec![(0x33, 1)], Some(100)), (vec![(0x11, 0)], Some(101))], mints: vec![(0xbb, Some(200))], burns: vec![(0xaa, Some(201))], withdrawals: vec![(0x02, Some(300)), (0x01, Some(301))], ..Default::default() }, "combined", &mut n);
